@@ -2,6 +2,7 @@ import ElaVerif.Model.Node
 import ElaVerif.Lemmas.Node
 import ElaVerif.Props.C13
 import ElaVerif.Props.C06
+import ElaVerif.Lemmas.IndexCongr
 /-!
   C14 — the queryable UTXO views agree with the ledger obtained by replaying the active chain.
 
@@ -64,6 +65,29 @@ theorem C14_unspent_iff (L : Ledger) (t i : Nat) :
 theorem C14_index_step (s : State) (b : Block) (hv : C13.ValidOn s b) :
     ∃ s1 s2, connect s b = .ok s1 ∧ disconnect s1 b = .ok s2 ∧ C13.Equiv s2 s :=
   C13.C13_inverse s b hv
+
+/-- **C14 (whole histories, persistent indexes).** Whatever sequence of block connections (each block valid
+    on the state it meets) and disconnections of the tip block the index model has gone through, every
+    observation — unspent lists and per-address lists up to order, tx index, side-chain hashes, deposit
+    returns, drafts, tip and height — is the one of the state built by connecting the blocks of the current
+    stack directly, in order. In particular a reorganisation leaves the indexes as a direct build of the new
+    chain would. -/
+theorem C14_history_is_direct_build {s0 s : State} {st : List Block} (h : Reach s0 s st) :
+    ∃ d, Direct s0 st d ∧ C13.Equiv s d :=
+  reach_equiv_direct h
+
+/-- on such a state the disconnect of the tip block always succeeds -/
+theorem C14_disconnect_never_fails {s0 s : State} {st : List Block} {b : Block} (h : Reach s0 s (b :: st)) :
+    ∃ s', disconnect s b = .ok s' :=
+  reach_disconnect_ok h
+
+/-- non-vacuity: connect, disconnect, connect again on the C13 example is a history -/
+example : ∃ s1 s2 s3, Reach C13.exState s3 [C13.exBlock] ∧ connect C13.exState C13.exBlock = .ok s1 ∧
+    disconnect s1 C13.exBlock = .ok s2 ∧ connect s2 C13.exBlock = .ok s3 := by
+  obtain ⟨s1, s2, hc, hd, he⟩ := C13.C13_inverse _ _ C13.C13_validOn_example
+  have hv2 : C13.ValidOn s2 C13.exBlock := validOn_of_equiv C13.C13_validOn_example he
+  obtain ⟨s3, _, hc3, _, _⟩ := C13.C13_inverse _ _ hv2
+  exact ⟨s1, s2, s3, .conn (.disc (.conn .base C13.C13_validOn_example hc) hd) hv2 hc3, hc, hd, hc3⟩
 
 example : utxoOf (replay [exG, exB1]) 2 = [{ txid := 21, idx := 0, addr := 2, value := 900, height := 1, cb := false }] := by
   decide
